@@ -426,6 +426,12 @@ def rule_ser(ctx):
     ctx.check("C10.ser", okp, wp, "attributes = proto_to_message(parse(<proto> data)) on every path", "the attribute object must be parsed from the <proto> child's data on every path", "parsed from the <proto> child")
 
 
+def rule_state(ctx):
+    """payload objects are built per message: no shared default Message() / attribute object that later calls merge into"""
+    from ..state import shared_defaults
+    ctx.units["C10.defaults_examined"] = shared_defaults(ctx, "C10.state", ["yowsup/layers/protocol_messages/", "yowsup/layers/protocol_media/", "yowsup/layers/axolotl/layer_send.py", "yowsup/layers/axolotl/layer_receive.py"])
+
+
 def rule_acc(ctx):
     repo = ctx.repo
     n = 0
@@ -482,6 +488,7 @@ def run(ctx):
     ctx.rule("C10.has", "HasField / None guards name the field they guard", floor=60)
     ctx.rule("C10.top", "top-level kinds 1:1, constructor order", floor=5)
     ctx.rule("C10.acc", "media entity accessors", floor=80)
+    ctx.rule("C10.state", "no shared default payload object is mutated", floor=1)
     ctx.rule("C10.ser", "the payload entity serialises its current attributes and parses the <proto> data", floor=2)
     ctx.assume("google.protobuf's own encoding is trusted; descriptors are read from the generated modules' Descriptor(...) calls")
     cv = Conv(ctx)
@@ -490,3 +497,4 @@ def run(ctx):
     ctx.guarded("C10.top", rule_top, ctx, cv)
     ctx.guarded("C10.ser", rule_ser, ctx)
     ctx.guarded("C10.acc", rule_acc, ctx)
+    ctx.guarded("C10.state", rule_state, ctx)
